@@ -8,7 +8,7 @@ use bytes::{Buf, Bytes};
 
 """
 
-from gen import make_call_rule, make_seq_rule, make_for_index_rule
+from gen import make_call_rule, make_seq_rule, make_for_index_rule, make_ghost_arg_rule, make_for_rule
 
 R_PREALLOC = make_call_rule("R-prealloc", "Vec::with_capacity", "verif_with_capacity", "Ghost(verif_prealloc_budget)")
 
@@ -180,4 +180,63 @@ UNITS["log"] = {
     "mod_uses": {"log": "use super::utils;\nuse super::io::Write;", "utils": ""},
     "root_uses": "",
     "extern": [],
+}
+
+# ------------------------------------------------------------------------------------------------
+# unit cmd: request decoding and execution (C06)
+R_TRY_INTO_DEL = make_seq_rule("R-try-into", "Command::Del(parser.try_into()?)", "Command::Del(Del::try_from(parser)?)")
+R_TRY_INTO_GET = make_seq_rule("R-try-into", "Command::Get(parser.try_into()?)", "Command::Get(Get::try_from(parser)?)")
+R_TRY_INTO_SET = make_seq_rule("R-try-into", "Command::Set(parser.try_into()?)", "Command::Set(Set::try_from(parser)?)")
+R_KV_GHOST = make_ghost_arg_rule(["apply", "verif_blocking", "get", "set", "del"], skip_after={}, arg="Tracked(m)", param="Tracked(m): Tracked<&mut KvModel>")
+R_SPAWN = make_seq_rule("R-outline", "tokio::task::spawn_blocking(", "verif_task::spawn_blocking(")
+
+
+def _keys_for(iter_text, pat):
+    if iter_text.replace(" ", "") == "self.keys":
+        return ("let mut verif_j: usize = 0;", "verif_j < self.keys.len()", "let %s = &self.keys[verif_j]; verif_j += 1;" % pat)
+    return None
+
+
+R_FOR_KEYS = make_for_rule("R-for-collect", _keys_for)
+# Verus cannot resolve the auto-trait obligation `TcpStream: Unpin` at the concrete call sites in command/*.rs; the bound plays no role for the shim stream
+R_NO_UNPIN = make_seq_rule("R-unpin", "AsyncWriteExt + Unpin", "AsyncWriteExt")
+CMD_RULES = (R_TRY_INTO_DEL, R_TRY_INTO_GET, R_TRY_INTO_SET, R_SPAWN, R_FOR_KEYS, R_KV_GHOST)
+CMD_USES = "use super::verif_net as net;\nuse super::frame::{self, Frame};\nuse super::connection::Connection;\nuse super::command::{self, Utf8Bytes, ubytes, SCmd, reply, effect, del_fold, ok_text};\nuse std::convert::TryFrom;"
+UNITS["cmd"] = {
+    "name": "cmd",
+    "header": NET_HEADER,
+    "derive_keep": ["Debug"],
+    "specs": ["frame.spec", "connection.spec", "command.spec"],
+    "parts": [
+        ("raw", "prelude/net_prelude.rs", "prelude"),
+        ("raw", "prelude/conn_prelude.rs", "prelude"),
+        ("raw", "prelude/cmd_prelude.rs", "prelude"),
+        ("raw", "lemmas/resp_lemmas.rs", "lemma", {"mod": "frame"}),
+        ("repo", "src/net/frame.rs", {"rules": (R_PREALLOC,), "mod": "frame", "stub_all": True}),
+        ("raw", "lemmas/conn_lemmas.rs", "lemma", {"mod": "frame"}),
+        ("repo", "src/net/error.rs", {"mod": "error", "only": ["enum Error"]}),
+        ("raw", "lemmas/conn_views.rs", "lemma", {"mod": "connection"}),
+        ("repo", "src/net/connection.rs", {"rules": (R_STD_IO, R_DEREF_SLICE, R_FOR_ITEMS), "mod": "connection", "stub_all": True, "header_rules": (R_NO_UNPIN,)}),
+        ("raw", "lemmas/cmd_lemmas.rs", "lemma", {"mod": "command"}),
+        ("repo", "src/net/command.rs", {"mod": "command", "rules": CMD_RULES, "only": [
+            "enum Error", "enum Command", "struct Parser", "struct Utf8Bytes",
+            "impl Command::fn apply", "impl TryFrom<Frame> for Command::fn try_from", "impl TryFrom<Frame> for Command::type Error", "impl TryFrom<Parser> for Del::type Error",
+            "impl TryFrom<Parser> for Get::type Error", "impl TryFrom<Parser> for Set::type Error", "impl TryFrom<Bytes> for Utf8Bytes::type Error", "impl Parser::fn new", "impl Parser::fn get_string", "impl Parser::fn get_bytes",
+            "impl Parser::fn finish", "impl TryFrom<Parser> for Del::fn try_from", "impl TryFrom<Parser> for Get::fn try_from",
+            "impl TryFrom<Parser> for Set::fn try_from", "impl AsRef<Bytes> for Utf8Bytes::fn as_ref", "impl TryFrom<Bytes> for Utf8Bytes::fn try_from"]}),
+        ("raw", "lemmas/cmd_views_get.rs", "lemma", {"mod": "get"}),
+        ("repo", "src/net/command/get.rs", {"mod": "get", "rules": CMD_RULES, "only": ["struct Get", "impl Get::fn new", "impl Get::fn apply", "impl Get::fn verif_blocking"],
+                                            "outline": {"impl Get::fn apply": "Result<Option<bytes::Bytes>, KV::Error>"}}),
+        ("raw", "lemmas/cmd_views_set.rs", "lemma", {"mod": "set"}),
+        ("repo", "src/net/command/set.rs", {"mod": "set", "rules": CMD_RULES, "only": ["struct Set", "impl Set::fn new", "impl Set::fn apply", "impl Set::fn verif_blocking"],
+                                            "outline": {"impl Set::fn apply": "Result<(), KV::Error>"}}),
+        ("raw", "lemmas/cmd_views_del.rs", "lemma", {"mod": "del"}),
+        ("repo", "src/net/command/del.rs", {"mod": "del", "rules": CMD_RULES, "only": ["struct Del", "impl Del::fn new", "impl Del::fn apply", "impl Del::fn verif_blocking"],
+                                            "outline": {"impl Del::fn apply": "Result<i64, KV::Error>"}}),
+    ],
+    "mod_uses": {"connection": "use super::frame::{self, Frame};", "error": "",
+                 "command": "use super::frame::{self, Frame};\nuse super::connection::Connection;\nuse super::{del::Del, get::Get, set::Set};\nuse std::convert::TryFrom;\nuse vstd::std_specs::iter::IteratorSpec;",
+                 "get": CMD_USES, "set": CMD_USES, "del": CMD_USES},
+    "root_uses": "pub use frame::*;\npub use error::Error;\npub use connection::Connection;\n",
+    "extern": ["bytes"],
 }
